@@ -1182,6 +1182,8 @@ def run(tier, seed):
         if not g.DATA:
             g.generate()
         D = dict(g.DATA)
+        if D.get("unreadable"):
+            ck.extra["translator"] = "translator: shape unreadable, tie = correspondence only: " + "; ".join(D["unreadable"])
     except Exception as e:
         ck.proof_broken("translator gen/c16.py", repr(e))
     # 2 prove
